@@ -19,6 +19,11 @@ class Check(c01.Check):
         'binary32 conversion of constants is struct.pack (trusted); constants used are exactly representable',
         'variants block not covered here (C04)']
 
+    @staticmethod
+    def _ref_wf(f):
+        ref = c01_regen.class_ref().get(f.get('cls'))
+        return bool(f.get('wf')) if ref is None else ref[1] == 1
+
     def rule(self):
         return ('C01 program generator with larger graphs (up to 300 events), definition names of length '
                 '0..257 over [A-Za-z0-9_], more multi-out and width-first units, invalid graphs (bad inputs, '
@@ -128,6 +133,11 @@ class Check(c01.Check):
             return {'what': 'emitted definition carries a NaN/inf constant', 'signature': 'c02:nan-constant'}
         if not canon.startswith('OK'):
             return None
+        if io.get('out_nonaudio'):
+            ei, chs = io['out_nonaudio'][0]
+            return {'what': f'audio-rate output unit of event {ei} was given channel(s) {chs} that are not audio rate '
+                            '(control-rate signal or non-zero constant) and the graph was compiled to bytes instead of rejected',
+                    'signature': 'c02:out-nonaudio-accepted'}
         sem = io.get('sem')
         if sem and sem.get('signature', '').startswith(('scgf:', 'c02:')):
             return sem
@@ -158,7 +168,7 @@ class Check(c01.Check):
         pos = io.get('positions') or {}
         flags = io.get('flags') or {}
         for ei, f in flags.items():
-            if f.get('wf') and pos.get(ei):
+            if self._ref_wf(f) and pos.get(ei):
                 p0 = pos[ei][0]
                 for ej, pj in pos.items():
                     if int(ej) > int(ei) and pj and pj[0] < p0:
